@@ -398,7 +398,7 @@ def run(ctx):
                  tags, {"tree": traw[i], "violation": v, "theorem_or_corr": "corr:C25:tree"}, v is not None)
 
     # ---- B. random histories with copies, rational bounds, several networks
-    n_hist = 350 if ctx.quick else 5000
+    n_hist = 250 if ctx.quick else 5000
     cases, raw = [], []
     nontrivial = set()
     pools = {
@@ -468,7 +468,7 @@ def run(ctx):
         if nadd >= 5:
             nontrivial.add(json.dumps(rec["ops"]))
 
-    bad = coq_failing_2(ctx, cases, "ok", 275 if ctx.quick else 350, imports=IMPORTS, timeout=1700)
+    bad = coq_failing_2(ctx, cases, "ok", 225 if ctx.quick else 350, imports=IMPORTS, timeout=1700)
     shown = 0
     for i in bad:
         rec, heap, lineage, eps, diverged = raw[i]
